@@ -92,7 +92,7 @@ def build(pid):
 
 # supplementary translation ties (harness/py2lean.py -> lean/Serif/Gen/Translated{,Rel}.lean -> lean/Serif/Tie/*.lean)
 TIES = {"C03": ["Serif.Tie.Typing", "Serif.Tie.Assign"], "C04": ["Serif.Tie.Typing"], "C08": ["Serif.Tie.Typing", "Serif.Tie.Assign"], "C07": ["Serif.Tie.Index"],
-        "C18": ["Serif.Tie.Names"], "C16": ["Serif.Tie.Fingerprint"], "C17": ["Serif.Tie.ColumnMap"], "C19": ["Serif.Tie.Csv"],
+        "C18": ["Serif.Tie.Names", "Serif.Tie.Sanitize"], "C16": ["Serif.Tie.Fingerprint"], "C17": ["Serif.Tie.ColumnMap", "Serif.Tie.Sanitize"], "C19": ["Serif.Tie.Csv"],
         "C09": ["Serif.Tie.Join"], "C10": ["Serif.Tie.Join"], "C11": ["Serif.Tie.Join"],
         "C12": ["Serif.Tie.Group"], "C13": ["Serif.Tie.Group"], "C15": ["Serif.Tie.AliasTracker"], "C01": ["Serif.Tie.AliasTracker"],
         "C20": ["Serif.Tie.Repr"]}
